@@ -33,7 +33,7 @@ import math
 from fractions import Fraction
 
 __all__ = ['Undefined', 'ParseError', 'Relation', 'Expr', 'parse', 'parse_line', 'parse_expr',
-           'holds_all', 'boundary_value', 'exact', 'is_float_exact', 'COMPARATORS']
+           'holds_all', 'parse_cases', 'holds_any', 'boundary_value', 'exact', 'is_float_exact', 'COMPARATORS']
 
 COMPARATORS = ('<=', '>=', '==', '!=', '<', '>', '=')
 MAX_EXPONENT = 64
@@ -390,7 +390,21 @@ def parse(text, variables='x', locals=None, float_literals=False):
 
 
 def holds_all(relations, x, mode='exact'):
+    """every line of one system holds at x (raises Undefined where a side has no value)"""
     return all(r.holds(x, mode) for r in relations)
+
+
+def parse_cases(texts, variables='x', locals=None, float_literals=False):
+    """``simplify(..., all=True)`` returns one multi-line text or a tuple of them (alternative
+    cases): parse into a list of systems"""
+    if isinstance(texts, str):
+        texts = (texts,)
+    return [parse(t, variables, locals, float_literals) for t in texts]
+
+
+def holds_any(cases, x, mode='exact'):
+    """x satisfies every line of at least one case"""
+    return any(holds_all(c, x, mode) for c in cases)
 
 
 def boundary_value(rel, x, j):
